@@ -65,6 +65,8 @@ func c08Seeds(thorough bool) []c08Seed {
 		}
 	}
 	add("acroform-nested", docgen.FormDoc("nested-inherit-da"))
+	// an ancestor passing down resources of one category while the pages share an indirect sub dictionary of another
+	add("shared-subdict+inherited-other", docgen.NearDup(docgen.NearDupSpec{Kind: "form", Attr: "content", Different: true, Placement: "shared-subdict+inherited-other"}))
 	add("annotation", docgen.CryptoDoc("annotation", "M", "classic"))
 	add("sigfields", docgen.SigDoc(docgen.SigSpec{Shape: "nested-kid", N: 1, OtherField: true, OtherGroup: true, Perms: "both", DSS: true, Container: "classic"}))
 	if thorough {
